@@ -228,8 +228,11 @@ class TelegramQueue:
             # raises CommunicationError when interface is not connected
             await self.xknx.cemi_handler.send_telegram(telegram)
 
-        self.xknx.devices.process(telegram)
-        self._run_telegram_received_cbs(telegram)
+        try:
+            self.xknx.devices.process(telegram)
+        finally:
+            # callbacks see the telegram even if a device fails to process it
+            self._run_telegram_received_cbs(telegram)
 
     async def process_telegram_incoming(self, telegram: Telegram) -> None:
         """Process incoming telegram."""
